@@ -12,6 +12,7 @@ pub const MK_ASSET: u32 = 1; // C14
 pub const MK_RELOAD: u32 = 2; // C07
 pub const MK_GRID: u32 = 4; // C12
 pub const MK_FLAG: u32 = 8; // C13
+pub const MK_LEDGER: u32 = 16; // C03: ledger audit per asset, independent of the stand-alone books; frequent counter resets
 
 #[derive(Clone, Debug, Serialize, Deserialize)]
 pub struct MarketCfg {
@@ -49,14 +50,17 @@ pub struct MarketCensus {
     pub shared_local_ids_with_different_contents: u64,
     pub sessions_where_2_assets_share_ids_and_trade: u64,
     pub all_asset_queries_checked: u64,
-    pub per_assets: [u64; 5],
+    pub counter_resets: u64,
+    pub ledger_audits: u64,
+    pub ledger_trades_audited: u64,
+    pub per_assets: [u64; 6],
 }
 
 impl MarketCensus {
     pub fn merge(&mut self, o: &MarketCensus) {
         macro_rules! add { ($($f:ident),*) => { $( self.$f += o.$f; )* } }
-        add!(sessions, ops, creations, rejected_creations, trades, cancels, modifies, events, toggles, ops_while_disabled, market_rejected, reloads, fork_comparisons, shared_local_ids_with_different_contents, sessions_where_2_assets_share_ids_and_trade, all_asset_queries_checked);
-        for i in 0..5 {
+        add!(sessions, ops, creations, rejected_creations, trades, cancels, modifies, events, toggles, ops_while_disabled, market_rejected, reloads, fork_comparisons, shared_local_ids_with_different_contents, sessions_where_2_assets_share_ids_and_trade, all_asset_queries_checked, counter_resets, ledger_audits, ledger_trades_audited);
+        for i in 0..6 {
             self.per_assets[i] += o.per_assets[i];
         }
     }
@@ -144,10 +148,14 @@ pub fn market_session<const A: usize, const L: usize>(cfg: &MarketCfg, cs: &mut 
     let mut log: Vec<String> = Vec::new();
     let mut t = t0;
     cs.sessions += 1;
-    cs.per_assets[A] += 1;
+    cs.per_assets[A.min(5)] += 1; // index 5 = wide markets (12 and 66 assets)
     let mut traded_assets = vec![false; A];
     let mut shared_ids = false;
     let mut mixed_flags = false;
+    // C03 through the market wrapper: the harness's own copy of every asset's trade log and the index of the first
+    // trade after the last counter reset it issued for that asset
+    let mut led_log: Vec<Vec<RTrade>> = vec![Vec::new(); A];
+    let mut led_from: Vec<usize> = vec![0; A];
 
     let price = |rng: &mut Sm, a: usize| -> u32 {
         let c = centers[a];
@@ -345,12 +353,22 @@ pub fn market_session<const A: usize, const L: usize>(cfg: &MarketCfg, cs: &mut 
                     // flags now differ between assets: the per-market `trading` notion no longer applies
                     mixed_flags = true;
                 }
-            } else if r < 95 {
-                log.push("reset trade vols".into());
-                let _ = m.reset_trade_vols();
-                for b in sh.iter_mut() {
-                    b.reset_trade_vol();
+            } else if r < 95 || (on(MK_LEDGER) && r < 97) {
+                if on(MK_LEDGER) && rng.chance(0.4) {
+                    // one asset's counter reset through its own book
+                    log.push(format!("asset {} book-level reset trade vol", a));
+                    m.get_order_book_mut(a).reset_trade_vol();
+                    sh[a].reset_trade_vol();
+                    led_from[a] = sh[a].get_trades().len();
+                } else {
+                    log.push("reset trade vols".into());
+                    let _ = m.reset_trade_vols();
+                    for (k, b) in sh.iter_mut().enumerate() {
+                        b.reset_trade_vol();
+                        led_from[k] = b.get_trades().len();
+                    }
                 }
+                cs.counter_resets += 1;
             } else if on(MK_RELOAD) || r < 97 {
                 // snapshot + reload through one of four routes
                 let route = rng.below(4);
@@ -414,6 +432,30 @@ pub fn market_session<const A: usize, const L: usize>(cfg: &MarketCfg, cs: &mut 
                 }
             }
         }
+        if on(MK_LEDGER) {
+            let tvs = m.get_trade_vols();
+            for k in 0..A {
+                let tr: Vec<RTrade> = m.get_order_book(k).get_trades().iter().map(crate::real::conv_trade).collect();
+                if tr.len() < led_log[k].len() || tr[..led_log[k].len()] != led_log[k][..] {
+                    return mfail(i, "ledger", "logged_trade_changed", format!("asset {}: an existing trade record changed or disappeared", k), &log);
+                }
+                let orders = m.get_orders(k);
+                for x in &tr[led_log[k].len()..] {
+                    let (act, pas) = (conv_order(orders[x.active]), conv_order(orders[x.passive]));
+                    let admits = if act.bid { x.price <= act.price } else { x.price >= act.price };
+                    if x.t != t || x.vol == 0 || act.bid == pas.bid || x.price != pas.price || x.bid != pas.bid || !admits || k != a {
+                        return mfail(i, "ledger", "trade_record", format!("asset {} (operation on asset {}) at t={}: {:?} active {:?} passive {:?}", k, a, t, x, act, pas), &log);
+                    }
+                    cs.ledger_trades_audited += 1;
+                }
+                led_log[k] = tr;
+                let since: u64 = led_log[k][led_from[k].min(led_log[k].len())..].iter().map(|x| x.vol as u64).sum();
+                if tvs[k] as u64 != since || m.get_order_book(k).get_trade_vol() as u64 != since {
+                    return mfail(i, "ledger", "counter_differs_from_log", format!("asset {}: counter {} (book getter {}) but the trades logged since the last reset sum to {}", k, tvs[k], m.get_order_book(k).get_trade_vol(), since), &log);
+                }
+            }
+            cs.ledger_audits += 1;
+        }
         compare_all(&m, &sh, i, &log, cs, i % 3 == 0 || i + 1 == cfg.n_ops)?;
         // distinct key: same local id present in >= 2 assets with different contents
         if A >= 2 {
@@ -436,7 +478,7 @@ pub fn market_session<const A: usize, const L: usize>(cfg: &MarketCfg, cs: &mut 
             h.bytes(l.as_bytes());
         }
         keys.push(h.finish());
-    } else if A == 1 || on(MK_GRID) || on(MK_FLAG) || on(MK_RELOAD) {
+    } else if A == 1 || on(MK_GRID) || on(MK_FLAG) || on(MK_RELOAD) || on(MK_LEDGER) {
         let mut h = Fnv::new();
         for l in &log {
             h.bytes(l.as_bytes());
@@ -458,8 +500,12 @@ macro_rules! with_market {
             2 => $f::<3, 5>($($arg),*),
             3 => $f::<4, 2>($($arg),*),
             4 => $f::<2, 10>($($arg),*),
-            _ => $f::<4, 10>($($arg),*),
+            5 => $f::<4, 10>($($arg),*),
+            6 => $f::<12, 2>($($arg),*),
+            _ => $f::<66, 1>($($arg),*),
         }
     };
 }
-pub const N_MARKET_TYPES: usize = 6;
+pub const N_MARKET_TYPES: usize = 8;
+/// wide markets (more assets than levels, more than 10 / 64 assets): a small share of the market sessions
+pub const WIDE_MARKET_TYPES: [usize; 2] = [6, 7];
